@@ -9,6 +9,7 @@ package http2
 
 import (
 	"fmt"
+	"strconv"
 	"strings"
 
 	xhttp2 "golang.org/x/net/http2"
@@ -71,91 +72,115 @@ func (b *c18FuseBuf) Len() int {
 	return b.IoBuffer.Len()
 }
 
-func c18Hdr(typ uint8, flags uint8, stream, length uint32) string {
-	return fmt.Sprintf("type=%d flags=%#02x stream=%d len=%d ", typ, flags, stream, length)
+// c18B builds the comparable text form of a parsed frame without fmt (this runs
+// once per frame per segmentation, tens of millions of times). Both projections
+// below use the same builder calls in the same order, so equal frames give
+// equal text.
+type c18B struct{ b []byte }
+
+func (p *c18B) s(x string) *c18B  { p.b = append(p.b, x...); return p }
+func (p *c18B) u(x uint64) *c18B  { p.b = strconv.AppendUint(p.b, x, 10); return p }
+func (p *c18B) t(x bool) *c18B    { p.b = strconv.AppendBool(p.b, x); return p }
+func (p *c18B) q(x string) *c18B  { p.b = strconv.AppendQuote(p.b, x); return p }
+func (p *c18B) x(x []byte) *c18B {
+	const hexd = "0123456789abcdef"
+	for _, c := range x {
+		p.b = append(p.b, hexd[c>>4], hexd[c&15])
+	}
+	return p
+}
+func (p *c18B) hdr(typ, flags uint8, stream, length uint32) *c18B {
+	return p.s("type=").u(uint64(typ)).s(" flags=").u(uint64(flags)).s(" stream=").u(uint64(stream)).s(" len=").u(uint64(length)).s(" ")
+}
+func (p *c18B) prio(dep uint32, excl bool, weight uint8) *c18B {
+	return p.s("prio{dep=").u(uint64(dep)).s(" excl=").t(excl).s(" w=").u(uint64(weight)).s("}")
+}
+func (p *c18B) hflags(hasprio, endstream, endheaders bool) *c18B {
+	return p.s(" hasprio=").t(hasprio).s(" endstream=").t(endstream).s(" endheaders=").t(endheaders)
+}
+func (p *c18B) field(name, value string, sens bool) *c18B {
+	return p.s(" ").q(name).s("=").q(value).s("/").t(sens)
 }
 
-func c18Prio(dep uint32, excl bool, weight uint8) string {
-	return fmt.Sprintf("prio{dep=%d excl=%v w=%d}", dep, excl, weight)
+// c18ProjM projects a frame parsed by MOSN into p (reset first). Must be called
+// before the next read (payload slices alias the read buffer).
+func c18ProjM(p *c18B, f Frame) string {
+	c18ProjMInto(p, f)
+	return string(p.b)
 }
 
-// c18ProjM projects a frame parsed by MOSN. Must be called before the next read
-// (payload slices alias the read buffer).
-func c18ProjM(f Frame) string {
+func c18ProjMInto(p *c18B, f Frame) {
+	p.b = p.b[:0]
 	h := f.Header()
-	s := c18Hdr(uint8(h.Type), uint8(h.Flags), h.StreamID, h.Length)
+	p.hdr(uint8(h.Type), uint8(h.Flags), h.StreamID, h.Length)
 	switch f := f.(type) {
 	case *DataFrame:
-		s += fmt.Sprintf("DATA %q end=%v", f.Data(), f.StreamEnded())
+		p.s("DATA ").x(f.Data()).s(" end=").t(f.StreamEnded())
 	case *MetaHeadersFrame:
-		var fs []string
+		p.s("METAHEADERS ").prio(f.Priority.StreamDep, f.Priority.Exclusive, f.Priority.Weight).hflags(f.HasPriority(), f.StreamEnded(), f.HeadersEnded()).s(" truncated=").t(f.Truncated).s(" fields=[")
 		for _, hf := range f.Fields {
-			fs = append(fs, fmt.Sprintf("%q=%q/%v", hf.Name, hf.Value, hf.Sensitive))
+			p.field(hf.Name, hf.Value, hf.Sensitive)
 		}
-		s += fmt.Sprintf("METAHEADERS %s hasprio=%v endstream=%v endheaders=%v truncated=%v fields=[%s]",
-			c18Prio(f.Priority.StreamDep, f.Priority.Exclusive, f.Priority.Weight), f.HasPriority(), f.StreamEnded(), f.HeadersEnded(), f.Truncated, strings.Join(fs, " "))
+		p.s("]")
 	case *HeadersFrame:
-		s += fmt.Sprintf("HEADERS %s hasprio=%v endstream=%v endheaders=%v frag=%x",
-			c18Prio(f.Priority.StreamDep, f.Priority.Exclusive, f.Priority.Weight), f.HasPriority(), f.StreamEnded(), f.HeadersEnded(), f.HeaderBlockFragment())
+		p.s("HEADERS ").prio(f.Priority.StreamDep, f.Priority.Exclusive, f.Priority.Weight).hflags(f.HasPriority(), f.StreamEnded(), f.HeadersEnded()).s(" frag=").x(f.HeaderBlockFragment())
 	case *ContinuationFrame:
-		s += fmt.Sprintf("CONTINUATION endheaders=%v frag=%x", f.HeadersEnded(), f.HeaderBlockFragment())
+		p.s("CONTINUATION endheaders=").t(f.HeadersEnded()).s(" frag=").x(f.HeaderBlockFragment())
 	case *SettingsFrame:
-		var ss []string
-		f.ForeachSetting(func(st Setting) error { ss = append(ss, fmt.Sprintf("%d=%d", uint16(st.ID), st.Val)); return nil })
-		s += fmt.Sprintf("SETTINGS ack=%v [%s]", f.IsAck(), strings.Join(ss, " "))
+		p.s("SETTINGS ack=").t(f.IsAck()).s(" [")
+		f.ForeachSetting(func(st Setting) error { p.s(" ").u(uint64(st.ID)).s("=").u(uint64(st.Val)); return nil })
+		p.s("]")
 	case *PingFrame:
-		s += fmt.Sprintf("PING ack=%v %x", f.IsAck(), f.Data[:])
+		p.s("PING ack=").t(f.IsAck()).s(" ").x(f.Data[:])
 	case *RSTStreamFrame:
-		s += fmt.Sprintf("RST code=%d", uint32(f.ErrCode))
+		p.s("RST code=").u(uint64(f.ErrCode))
 	case *WindowUpdateFrame:
-		s += fmt.Sprintf("WINDOW_UPDATE incr=%d", f.Increment)
+		p.s("WINDOW_UPDATE incr=").u(uint64(f.Increment))
 	case *GoAwayFrame:
-		s += fmt.Sprintf("GOAWAY last=%d code=%d debug=%q", f.LastStreamID, uint32(f.ErrCode), f.DebugData())
+		p.s("GOAWAY last=").u(uint64(f.LastStreamID)).s(" code=").u(uint64(f.ErrCode)).s(" debug=").x(f.DebugData())
 	case *PriorityFrame:
-		s += "PRIORITY " + c18Prio(f.StreamDep, f.Exclusive, f.Weight)
+		p.s("PRIORITY ").prio(f.StreamDep, f.Exclusive, f.Weight)
 	default:
-		s += fmt.Sprintf("OTHER %T", f)
+		p.s(fmt.Sprintf("OTHER %T", f))
 	}
-	return s
 }
 
 // c18ProjX projects a frame parsed by x/net in exactly the same form.
-func c18ProjX(f xhttp2.Frame) string {
+func c18ProjX(p *c18B, f xhttp2.Frame) string {
+	p.b = p.b[:0]
 	h := f.Header()
-	s := c18Hdr(uint8(h.Type), uint8(h.Flags), h.StreamID, h.Length)
+	p.hdr(uint8(h.Type), uint8(h.Flags), h.StreamID, h.Length)
 	switch f := f.(type) {
 	case *xhttp2.DataFrame:
-		s += fmt.Sprintf("DATA %q end=%v", f.Data(), f.StreamEnded())
+		p.s("DATA ").x(f.Data()).s(" end=").t(f.StreamEnded())
 	case *xhttp2.MetaHeadersFrame:
-		var fs []string
+		p.s("METAHEADERS ").prio(f.Priority.StreamDep, f.Priority.Exclusive, f.Priority.Weight).hflags(f.HasPriority(), f.StreamEnded(), f.HeadersEnded()).s(" truncated=").t(f.Truncated).s(" fields=[")
 		for _, hf := range f.Fields {
-			fs = append(fs, fmt.Sprintf("%q=%q/%v", hf.Name, hf.Value, hf.Sensitive))
+			p.field(hf.Name, hf.Value, hf.Sensitive)
 		}
-		s += fmt.Sprintf("METAHEADERS %s hasprio=%v endstream=%v endheaders=%v truncated=%v fields=[%s]",
-			c18Prio(f.Priority.StreamDep, f.Priority.Exclusive, f.Priority.Weight), f.HasPriority(), f.StreamEnded(), f.HeadersEnded(), f.Truncated, strings.Join(fs, " "))
+		p.s("]")
 	case *xhttp2.HeadersFrame:
-		s += fmt.Sprintf("HEADERS %s hasprio=%v endstream=%v endheaders=%v frag=%x",
-			c18Prio(f.Priority.StreamDep, f.Priority.Exclusive, f.Priority.Weight), f.HasPriority(), f.StreamEnded(), f.HeadersEnded(), f.HeaderBlockFragment())
+		p.s("HEADERS ").prio(f.Priority.StreamDep, f.Priority.Exclusive, f.Priority.Weight).hflags(f.HasPriority(), f.StreamEnded(), f.HeadersEnded()).s(" frag=").x(f.HeaderBlockFragment())
 	case *xhttp2.ContinuationFrame:
-		s += fmt.Sprintf("CONTINUATION endheaders=%v frag=%x", f.HeadersEnded(), f.HeaderBlockFragment())
+		p.s("CONTINUATION endheaders=").t(f.HeadersEnded()).s(" frag=").x(f.HeaderBlockFragment())
 	case *xhttp2.SettingsFrame:
-		var ss []string
-		f.ForeachSetting(func(st xhttp2.Setting) error { ss = append(ss, fmt.Sprintf("%d=%d", uint16(st.ID), st.Val)); return nil })
-		s += fmt.Sprintf("SETTINGS ack=%v [%s]", f.IsAck(), strings.Join(ss, " "))
+		p.s("SETTINGS ack=").t(f.IsAck()).s(" [")
+		f.ForeachSetting(func(st xhttp2.Setting) error { p.s(" ").u(uint64(st.ID)).s("=").u(uint64(st.Val)); return nil })
+		p.s("]")
 	case *xhttp2.PingFrame:
-		s += fmt.Sprintf("PING ack=%v %x", f.IsAck(), f.Data[:])
+		p.s("PING ack=").t(f.IsAck()).s(" ").x(f.Data[:])
 	case *xhttp2.RSTStreamFrame:
-		s += fmt.Sprintf("RST code=%d", uint32(f.ErrCode))
+		p.s("RST code=").u(uint64(f.ErrCode))
 	case *xhttp2.WindowUpdateFrame:
-		s += fmt.Sprintf("WINDOW_UPDATE incr=%d", f.Increment)
+		p.s("WINDOW_UPDATE incr=").u(uint64(f.Increment))
 	case *xhttp2.GoAwayFrame:
-		s += fmt.Sprintf("GOAWAY last=%d code=%d debug=%q", f.LastStreamID, uint32(f.ErrCode), f.DebugData())
+		p.s("GOAWAY last=").u(uint64(f.LastStreamID)).s(" code=").u(uint64(f.ErrCode)).s(" debug=").x(f.DebugData())
 	case *xhttp2.PriorityFrame:
-		s += "PRIORITY " + c18Prio(f.StreamDep, f.Exclusive, f.Weight)
+		p.s("PRIORITY ").prio(f.StreamDep, f.Exclusive, f.Weight)
 	default:
-		s += fmt.Sprintf("OTHER %T", f)
+		p.s(fmt.Sprintf("OTHER %T", f))
 	}
-	return s
+	return string(p.b)
 }
 
 // c18Kind extracts the frame kind word of a projection (for finding keys).
@@ -174,4 +199,10 @@ func c18Kind(proj string) string {
 		return rest[:k]
 	}
 	return rest
+}
+
+// c18ProjMEq projects f into pb and reports whether it equals want (no allocation).
+func c18ProjMEq(pb *c18B, f Frame, want string) bool {
+	c18ProjMInto(pb, f)
+	return string(pb.b) == want
 }
